@@ -88,6 +88,9 @@ def fx1():
         "key x": lambda: fr.keypress(S, "x"),
         "key down": lambda: fr.keypress(S, "down"),
         "key up": lambda: fr.keypress(S, "up"),
+        "key home": lambda: fr.keypress(S, "home"),
+        "key end": lambda: fr.keypress(S, "end"),
+        "lb.set_focus last,above": lambda: lb.set_focus(len(walker) - 1, "above") if len(walker) else None,
         "click row2": lambda: fr.mouse_event(S, "mouse press", 1, 1, 2, True),
         "walker.insert": lambda: walker.insert(0, urwid.Text("new")) if len(walker) < 5 else None,
         "walker.pop": lambda: walker.pop(0) if len(walker) > 1 else None,
